@@ -571,10 +571,21 @@ fn gen_grid(r: &mut Rng) -> Grid {
                 v.push(TrackDef::Single(g_fn(r)));
             }
         }
-        if r.chance(1, 8) {
+        if r.chance(1, 5) {
             // a valid auto-repetition template
             let k = r.below(3);
-            let mut v: Vec<TrackDef> = (0..k).map(|_| TrackDef::Single(g_fixed_fn(r))).collect();
+            // fixed tracks around the auto-repetition, one in three as a `repeat(<count>, …)` of one or two tracks (the track
+            // index that decides which auto-fit tracks collapse has to count every repetition: seeded change C09-3)
+            let mut v: Vec<TrackDef> = (0..k)
+                .map(|_| {
+                    if r.chance(1, 3) {
+                        let m = 1 + r.below(2);
+                        TrackDef::Repeat(GridTrackRepetition::Count(r.range(1, 3) as u16), (0..m).map(|_| g_fixed_fn(r)).collect())
+                    } else {
+                        TrackDef::Single(g_fixed_fn(r))
+                    }
+                })
+                .collect();
             let kind = if r.chance(1, 2) { GridTrackRepetition::AutoFill } else { GridTrackRepetition::AutoFit };
             let at = r.below(k + 1);
             v.insert(at, TrackDef::Repeat(kind, vec![g_fixed_fn(r)]));
@@ -734,6 +745,18 @@ pub fn run(cfg: &Cfg, out: &mut Out) -> String {
         let mut st = base_grid(Dimension::length(100.0), Dimension::length(20.0));
         st.grid_template_columns = tpl;
         emit_grid(out, &Grid { style: st, children: vec![Child { col: at(1, 1).0, row: at(1, 1).1, w: 5.0, h: 5.0 }], avail: Size::MAX_CONTENT });
+        out.nontrivial();
+    }
+    idx += 1;
+    // (3c) seeded change C09-3: `repeat(2, 40px) repeat(auto-fit, 100px)`, 500px wide, gap 10, items in columns 1, 2 and 4: the
+    // occupied auto-fit column 4 keeps its 100px, the empty column 3 (and the gutter after it) collapses
+    if cfg.wants(idx) {
+        out.begin_case(idx, "fixed-count-repeat-before-auto-fit");
+        let mut st = base_grid(Dimension::length(500.0), Dimension::length(20.0));
+        st.grid_template_columns = vec![TrackDef::Repeat(GridTrackRepetition::Count(2), vec![px(40.0)]), TrackDef::Repeat(GridTrackRepetition::AutoFit, vec![px(100.0)])];
+        st.gap = Size { width: LengthPercentage::length(10.0), height: LengthPercentage::length(0.0) };
+        let children = [1, 2, 4].iter().map(|c| { let (col, row) = at(*c, 1); Child { col, row, w: 5.0, h: 5.0 } }).collect();
+        emit_grid(out, &Grid { style: st, children, avail: Size::MAX_CONTENT });
         out.nontrivial();
     }
     idx += 1;
